@@ -828,6 +828,79 @@ theorem tri_readGpos (f : Font) (fuel B : Nat) (h : B < fuel) :
     intro subs _
     exact tri_pure _ _
 
+theorem tri_ite {α : Type} {B : Nat} {c : Prop} [Decidable c] {a b : PM α} {d : α → Nat} {P : α → Prop}
+    (ha : c → Tri B a d P) (hb : ¬c → Tri B b d P) : Tri B (if c then a else b) d P := by
+  by_cases h : c
+  · rw [if_pos h]; exact ha h
+  · rw [if_neg h]; exact hb h
+
+theorem tri_semiLoop {σ : Type} (one : σ → PM σ) : ∀ (n B : Nat) (st : σ), B ≤ n →
+    (∀ st B', B' ≤ B → Tri B' (one st) d0 pT) → Tri B (semiLoop one n st) d0 pT := by
+  intro n
+  induction n with
+  | zero => intro B st h _; have : B = 0 := by omega
+            subst this; exact tri_zero _ _ _
+  | succ n ih =>
+    intro B st h hone
+    unfold semiLoop
+    refine tri_bind (hone st B (Nat.le_refl _)) ?_
+    intro st' _
+    refine tri_bind (tri_optional _ [tSemicolon] (by decide) (by decide)) ?_
+    intro b _
+    cases b with
+    | false => simp only [Bool.not_false, if_true]; exact tri_pure _ _
+    | true =>
+      refine tri_mono (B := B - 1) (by simp [d0]) ?_
+      simp only [Bool.not_true, Bool.false_eq_true, if_false]
+      refine tri_bind (tri_opt0 _ [tEOL] (by decide) (by decide)) ?_
+      intro _ _
+      exact ih _ _ (by simp [d0]; omega) (fun st B' hB => hone st B' (by simp [d0] at hB; omega))
+
+theorem tri_readGlyph (f : Font) (fuel B : Nat) (h : B ≤ fuel) : Tri B (readGlyph f fuel) d0 pT := by
+  unfold readGlyph
+  refine tri_bind (tri_readGlyphList f fuel B h) ?_
+  intro gids _
+  split
+  · exact tri_fatal _ _ _ _
+  · split
+    · exact tri_fatal _ _ _ _
+    · exact tri_pure _ _
+
+theorem tri_gpos3Sub (f : Font) (fuel B : Nat) (h : B ≤ fuel) : Tri B (gpos3Sub f fuel) d0 pT := by
+  unfold gpos3Sub
+  refine tri_bind (tri_semiLoop _ fuel _ [] h ?_) ?_
+  · intro m B' hB
+    have hB' : B' ≤ fuel := by omega
+    refine tri_bind (tri_readGlyph f fuel B' hB') ?_
+    intro gid _
+    refine tri_bind (tri_opt0 _ [tColon] (by decide) (by decide)) ?_
+    intro _ _
+    refine tri_bind (tri_readInt16 _) ?_
+    intro x1 _
+    refine tri_bind (tri_required _ _) ?_
+    intro _ _
+    refine tri_bind (tri_readInt16 _) ?_
+    intro y1 _
+    refine tri_bind (tri_requiredIdentifier _ _) ?_
+    intro _ _
+    refine tri_bind (tri_readInt16 _) ?_
+    intro x2 _
+    refine tri_bind (tri_required _ _) ?_
+    intro _ _
+    refine tri_bind (tri_readInt16 _) ?_
+    intro y2 _
+    exact tri_pure _ _
+  · intro res _
+    exact tri_pure _ _
+
+theorem tri_readGpos3 (f : Font) (fuel B : Nat) (h : B < fuel) : Tri B (readGpos3 f fuel) d0 pT := by
+  unfold readGpos3
+  refine tri_bind (tri_header fuel B (by omega)) ?_
+  intro flags _
+  refine tri_bind (tri_subtablesLoop _ fuel _ [] (by simp [d0]; omega) (fun B' hB => tri_gpos3Sub f fuel B' (by simp [d0] at hB; omega))) ?_
+  intro subs _
+  exact tri_pure _ _
+
 theorem tri_parseLoop (f : Font) (fuel : Nat) : ∀ (n B : Nat) (acc : List Lookup), B ≤ n → B < fuel →
     Tri B (parseLoop f fuel n acc) d0 pT := by
   intro n
@@ -853,27 +926,25 @@ theorem tri_parseLoop (f : Font) (fuel : Nat) : ∀ (n B : Nat) (acc : List Look
       obtain ⟨r1, r2, r3, r4⟩ := tri_readGsub f fuel (B - nt item) (by omega)
       obtain ⟨p1, p2⟩ := tri_readGpos f fuel (B - nt item) hbf
       refine tri_mono (B := B - nt item) (Nat.le_refl _) ?_
-      split
-      · exact tri_pure _ _
-      split
-      · exact tri_fatal _ _ _ _
-      split
-      · exact ih _ _ hb hbf
-      split
+      refine tri_ite (fun _ => tri_pure _ _) (fun _ => ?_)
+      refine tri_ite (fun _ => tri_fatal _ _ _ _) (fun _ => ?_)
+      refine tri_ite (fun _ => ih _ _ hb hbf) (fun _ => ?_)
+      refine tri_ite (fun _ => ?_) (fun _ => ?_)
       · refine tri_bind r1 ?_; intro l _; exact ih _ _ (by simp [d0]; omega) (by simp [d0]; omega)
-      split
+      refine tri_ite (fun _ => ?_) (fun _ => ?_)
       · refine tri_bind r2 ?_; intro l _; exact ih _ _ (by simp [d0]; omega) (by simp [d0]; omega)
-      split
+      refine tri_ite (fun _ => ?_) (fun _ => ?_)
       · refine tri_bind r3 ?_; intro l _; exact ih _ _ (by simp [d0]; omega) (by simp [d0]; omega)
-      split
+      refine tri_ite (fun _ => ?_) (fun _ => ?_)
       · refine tri_bind r4 ?_; intro l _; exact ih _ _ (by simp [d0]; omega) (by simp [d0]; omega)
-      split
+      refine tri_ite (fun _ => ?_) (fun _ => ?_)
       · refine tri_bind p1 ?_; intro l _; exact ih _ _ (by simp [d0]; omega) (by simp [d0]; omega)
-      split
+      refine tri_ite (fun _ => ?_) (fun _ => ?_)
       · refine tri_bind p2 ?_; intro l _; exact ih _ _ (by simp [d0]; omega) (by simp [d0]; omega)
-      split
-      · exact tri_throw_unmodelled _ _ _
-      · exact tri_fatal _ _ _ _
+      refine tri_ite (fun _ => ?_) (fun _ => ?_)
+      · refine tri_bind (tri_readGpos3 f fuel (B - nt item) hbf) ?_
+        intro l _; exact ih _ _ (by simp [d0]; omega) (by simp [d0]; omega)
+      refine tri_ite (fun _ => tri_throw_unmodelled _ _ _) (fun _ => tri_fatal _ _ _ _)
 
 theorem wsum_le_length (l : List Tok) : wsum l ≤ l.length := by
   induction l with
